@@ -226,6 +226,9 @@ def r04_3(ctx: Ctx):
         if "best" in o.subject:
             o.rule = "R04.3"
             out.append(o)
+    for o in c13.r13_7(ctx, need="by-value"):
+        o.rule = "R04.3"
+        out.append(o)
     return out
 
 
@@ -264,6 +267,15 @@ def _dom(e: ast.AST, atoms: set[str]):
             return _dom(e.func.value, atoms)
         if e.func.attr == "copy" and not e.args:
             return _dom(e.func.value, atoms)
+    if isinstance(e, ast.Subscript) and isinstance(e.slice, ast.Slice):
+        inner = _dom(e.value, atoms)
+        if inner is None:
+            return None
+        if e.slice.lower is None and e.slice.upper is None and e.slice.step is None:
+            return inner
+        if isinstance(e.value, ast.Call) and isinstance(e.value.func, ast.Attribute) and e.value.func.attr == "topk" and e.slice.lower is None and e.slice.step is None:
+            return inner  # a best-first population cut at the front keeps its best
+        return set()  # a positional cut of a population in no particular order: its best row may be the one cut off
     return None
 
 
@@ -283,7 +295,8 @@ def r04_5(ctx: Ctx, need: str = "keep-offspring"):
     rets = [r for r in body_walk(m.node) if isinstance(r, ast.Return)]
     st, why = INCONCLUSIVE, "select_new_population returns nothing"
     raw = [o for o in c13.r13_1(ctx) if o.status == VIOLATION and o.subject.endswith("select_new_population")]
-    wanted = {Oo} if need == "keep-offspring" else {P, Oo}
+    # C12 asks that the best PARENT survives (what happens to the offspring is C04's concern)
+    wanted = {Oo} if need == "keep-offspring" else {P}
     verdicts = []
     for r in rets:
         if r.value is None:
@@ -517,6 +530,17 @@ def r04_7(ctx: Ctx):
     return obs
 
 
+def r04_8(ctx: Ctx):
+    """R04.8 objective values are never kept in state shared between problems: a fitness cache that several problems write to hands one problem the values another problem's objective returned, so a kept fitness need not be a value of this objective."""
+    from . import c02
+
+    out = []
+    for o in c02.r02_11(ctx):
+        o.rule = "R04.8"
+        out.append(o)
+    return out
+
+
 RULES = [
     ("R04.1", r04_1, 4),
     ("R04.2", r04_2, 14),
@@ -525,4 +549,5 @@ RULES = [
     ("R04.5", r04_5, 8),
     ("R04.6", r04_6, 5),
     ("R04.7", r04_7, 3),
+    ("R04.8", r04_8, 1),
 ]
